@@ -25,7 +25,7 @@ echo "tests with change: $T"
 echo "demo exit with change: $D1 ; without: $D0"
 RES=""
 for C in $PID $EXTRA; do
-  (cd /verif && VERIF_REPO=$EVAL timeout 3000 ./check $C --tier quick --no-evidence > $OUT/check_$C.log 2>&1); RC=$?
+  (cd /verif && VERIF_CEX_DIR=/tmp/verif_cex_$NAME VERIF_REPO=$EVAL timeout 3000 ./check $C --tier quick --no-evidence > $OUT/check_$C.log 2>&1); RC=$?
   V=$(grep -c "^VIOLATION" $OUT/check_$C.log)
   echo "check $C: exit $RC, VIOLATION lines $V"
   RES="$RES $C:exit$RC"
@@ -41,6 +41,7 @@ for C in $PID $EXTRA; do
   fi
 done
 git -C /repo worktree remove --force $EVAL
+rm -rf /tmp/verif_cex_$NAME
 python3 - "$PID" "$NAME" "$T" "$D1" "$D0" "$RES" "$WT" <<'PY'
 import json,sys,os
 pid,name,t,d1,d0,res,wt=sys.argv[1:8]
